@@ -329,7 +329,7 @@ impl AddGraphNodeAttribute {
                 })
         };
         for attribute in &self.attributes {
-            attribute.execute(exec, &add_attribute)?;
+            attribute.execute(exec, &add_attribute, 0)?;
         }
         Ok(())
     }
@@ -367,7 +367,7 @@ impl AddEdgeAttribute {
             })
         };
         for attribute in &self.attributes {
-            attribute.execute(exec, &add_attribute)?;
+            attribute.execute(exec, &add_attribute, 0)?;
         }
         Ok(())
     }
@@ -877,6 +877,7 @@ impl Attribute {
         &self,
         exec: &mut ExecutionContext,
         add_attribute: &F,
+        shorthand_depth: usize,
     ) -> Result<(), ExecutionError>
     where
         F: Fn(&mut ExecutionContext, Identifier, Value) -> Result<(), ExecutionError>,
@@ -884,7 +885,7 @@ impl Attribute {
         exec.cancellation_flag.check("executing attribute")?;
         let value = self.value.evaluate(exec)?;
         if let Some(shorthand) = exec.shorthands.get(&self.name) {
-            shorthand.execute(exec, add_attribute, value)
+            shorthand.execute(exec, add_attribute, value, shorthand_depth)
         } else {
             add_attribute(exec, self.name.clone(), value)
         }
@@ -897,10 +898,19 @@ impl AttributeShorthand {
         exec: &mut ExecutionContext,
         add_attribute: &F,
         value: Value,
+        shorthand_depth: usize,
     ) -> Result<(), ExecutionError>
     where
         F: Fn(&mut ExecutionContext, Identifier, Value) -> Result<(), ExecutionError>,
     {
+        // expansion is unconditional, so nesting deeper than the number of shorthands
+        // means that a shorthand expands to itself and would never finish
+        if shorthand_depth >= exec.shorthands.iter().count() {
+            return Err(ExecutionError::RecursivelyDefinedShorthand(format!(
+                "{}",
+                self.name
+            )));
+        }
         let mut shorthand_locals = VariableMap::new();
         let mut shorthand_exec = ExecutionContext {
             source: exec.source,
@@ -919,7 +929,7 @@ impl AttributeShorthand {
         };
         self.variable.add(&mut shorthand_exec, value, false)?;
         for attr in &self.attributes {
-            attr.execute(&mut shorthand_exec, add_attribute)?;
+            attr.execute(&mut shorthand_exec, add_attribute, shorthand_depth + 1)?;
         }
         Ok(())
     }
